@@ -103,4 +103,549 @@ theorem eraseF_isEmpty {a b : List Frag} (h : eraseF a = eraseF b) : a.isEmpty =
     | nil => cases x; simp [eraseF] at h
     | cons y ys => rfl
 
+/-! ### rendering changes nothing but `formatted` -/
+
+/-- a successful visit returns the store and the node it was given, up to `formatted` -/
+def VisitErase (f : Visit) : Prop :=
+  ∀ st used n s n' st' used', f st used n = .ok (s, n', st', used') → eraseL st' = eraseL st ∧ eraseN n' = eraseN n
+
+theorem mapAcc_erase {f : Visit} (hf : VisitErase f) :
+    ∀ (ns : List Node) (st : Store) (used : List String) ss ns' st' used',
+      mapAcc f st used ns = .ok (ss, ns', st', used') → eraseL st' = eraseL st ∧ eraseL ns' = eraseL ns := by
+  intro ns
+  induction ns with
+  | nil =>
+    intro st used ss ns' st' used' h
+    simp [mapAcc] at h
+    obtain ⟨-, rfl, rfl, -⟩ := h
+    exact ⟨rfl, rfl⟩
+  | cons n ns ih =>
+    intro st used ss ns' st' used' h
+    unfold mapAcc at h
+    split at h
+    · simp at h
+    · rename_i s n1 st1 u1 h1
+      obtain ⟨e1, e2⟩ := hf _ _ _ _ _ _ _ h1
+      split at h
+      · simp at h
+      · rename_i ss2 ns2 st2 u2 h2
+        simp at h
+        obtain ⟨-, rfl, rfl, -⟩ := h
+        obtain ⟨e3, e4⟩ := ih _ _ _ _ _ _ h2
+        exact ⟨e3.trans e1, by simp [eraseL, e2, e4]⟩
+
+theorem mapFrags_erase {f : Visit} (hf : VisitErase f) :
+    ∀ (fs : List Frag) (st : Store) (used : List String) ss fs' st' used',
+      mapFrags f st used fs = .ok (ss, fs', st', used') → eraseL st' = eraseL st ∧ eraseF fs' = eraseF fs := by
+  intro fs
+  induction fs with
+  | nil =>
+    intro st used ss fs' st' used' h
+    simp [mapFrags] at h
+    obtain ⟨-, rfl, rfl, -⟩ := h
+    exact ⟨rfl, rfl⟩
+  | cons fr fs ih =>
+    intro st used ss fs' st' used' h
+    cases fr with
+    | mk ty ns =>
+      unfold mapFrags at h
+      split at h
+      · simp at h
+      · rename_i ss1 ns1 st1 u1 h1
+        obtain ⟨e1, e2⟩ := mapAcc_erase hf _ _ _ _ _ _ _ h1
+        split at h
+        · simp at h
+        · rename_i rest fs2 st2 u2 h2
+          simp at h
+          obtain ⟨-, rfl, rfl, -⟩ := h
+          obtain ⟨e3, e4⟩ := ih _ _ _ _ _ _ h2
+          exact ⟨e3.trans e1, by simp [eraseF, e2, e4]⟩
+
+/-- `to_ast` changes nothing but `formatted_variables`: the store and the rendered node are the ones it was
+    given, up to `formatted` -/
+theorem toAst_erase (idx : Nat) : ∀ fuel, VisitErase (toAst fuel idx) := by
+  intro fuel
+  induction fuel with
+  | zero => intro st used n s n' st' used' h; simp [toAst] at h
+  | succ f ih =>
+    intro st used n s n' st' used' h
+    cases n with
+    | obj r subs frags =>
+      unfold toAst at h
+      split at h
+      · simp at h
+      · split at h
+        · simp at h
+        · rename_i ss subs' st1 u2 h2
+          obtain ⟨a1, a2⟩ := mapAcc_erase ih _ _ _ _ _ _ _ h2
+          split at h
+          · simp at h
+          · rename_i fs frags' st2 u3 h3
+            obtain ⟨b1, b2⟩ := mapFrags_erase ih _ _ _ _ _ _ _ h3
+            simp at h
+            obtain ⟨-, rfl, rfl, -⟩ := h
+            exact ⟨b1.trans a1, by simp [eraseN, a2, b2]⟩
+    | ref id =>
+      unfold toAst at h
+      split at h
+      · simp at h
+      · rename_i n0 hn
+        split at h
+        · simp at h
+        · rename_i s1 n1 st1 u1 h1
+          simp at h
+          obtain ⟨-, rfl, rfl, -⟩ := h
+          obtain ⟨c1, c2⟩ := ih _ _ _ _ _ _ _ h1
+          refine ⟨?_, rfl⟩
+          rw [eraseL_set, c1, c2]
+          exact set_self _ _ _ (by rw [eraseL_getElem?, hn]; rfl)
+
+theorem buildSelections_erase (fuel : Nat) :
+    ∀ (ns : List Node) (idx : Nat) (st : Store) sels ns' st',
+      buildSelections fuel idx st ns = .ok (sels, ns', st') → eraseL st' = eraseL st ∧ eraseL ns' = eraseL ns := by
+  intro ns
+  induction ns with
+  | nil =>
+    intro idx st sels ns' st' h
+    simp [buildSelections] at h
+    obtain ⟨-, rfl, rfl⟩ := h
+    exact ⟨rfl, rfl⟩
+  | cons n ns ih =>
+    intro idx st sels ns' st' h
+    unfold buildSelections at h
+    split at h
+    · simp at h
+    · rename_i s n1 st1 u1 h1
+      obtain ⟨e1, e2⟩ := toAst_erase idx fuel _ _ _ _ _ _ _ h1
+      split at h
+      · simp at h
+      · rename_i ss ns2 st2 h2
+        simp at h
+        obtain ⟨-, rfl, rfl⟩ := h
+        obtain ⟨e3, e4⟩ := ih _ _ _ _ _ h2
+        exact ⟨e3.trans e1, by simp [eraseL, e2, e4]⟩
+
+/-- one client call changes nothing but `formatted_variables` -/
+theorem execOp_erase {ty nm : String} {st : Store} {nodes : List Node} {d : Doc} {st' : Store}
+    (h : execOp ty nm st nodes = .ok (d, st')) : eraseL st' = eraseL st := by
+  unfold execOp at h
+  split at h
+  · simp at h
+  · rename_i sels nodes' st1 hb
+    split at h
+    · simp at h
+    · simp at h
+      rw [← h.2]
+      exact (buildSelections_erase _ _ _ _ _ _ _ hb).1
+
+/-! ### two runs from configurations that agree up to `formatted` -/
+
+mutual
+  /-- every reference inside the node points into `A` -/
+  def RefsIn (A : Nat → Prop) : Node → Prop
+    | .obj _ subs frags => RefsInL A subs ∧ RefsInF A frags
+    | .ref id => A id
+  def RefsInL (A : Nat → Prop) : List Node → Prop
+    | [] => True
+    | n :: ns => RefsIn A n ∧ RefsInL A ns
+  def RefsInF (A : Nat → Prop) : List Frag → Prop
+    | [] => True
+    | .mk _ ns :: fs => RefsInL A ns ∧ RefsInF A fs
+end
+
+mutual
+  theorem refsIn_mono {A B : Nat → Prop} (h : ∀ i, A i → B i) : ∀ n, RefsIn A n → RefsIn B n
+    | .obj r subs frags, hr => by
+      simp only [RefsIn] at hr ⊢
+      exact ⟨refsInL_mono h subs hr.1, refsInF_mono h frags hr.2⟩
+    | .ref id, hr => by
+      simp only [RefsIn] at hr ⊢
+      exact h id hr
+  theorem refsInL_mono {A B : Nat → Prop} (h : ∀ i, A i → B i) : ∀ ns, RefsInL A ns → RefsInL B ns
+    | [], _ => by simp only [RefsInL]
+    | n :: ns, hr => by
+      simp only [RefsInL] at hr ⊢
+      exact ⟨refsIn_mono h n hr.1, refsInL_mono h ns hr.2⟩
+  theorem refsInF_mono {A B : Nat → Prop} (h : ∀ i, A i → B i) : ∀ fs, RefsInF A fs → RefsInF B fs
+    | [], _ => by simp only [RefsInF]
+    | .mk ty ns :: fs, hr => by
+      simp only [RefsInF] at hr ⊢
+      exact ⟨refsInL_mono h ns hr.1, refsInF_mono h fs hr.2⟩
+end
+
+/-- the two stores are IDENTICAL (`formatted` included) on the set `A` of object ids, and `A` is closed under
+    the references found in its objects -/
+structure Good (A : Nat → Prop) (st1 st2 : Store) : Prop where
+  same : ∀ id, A id → st1[id]? = st2[id]?
+  closed : ∀ id m, A id → st1[id]? = some m → RefsIn A m
+
+theorem good_empty (st1 st2 : Store) : Good (fun _ => False) st1 st2 :=
+  ⟨fun _ h => h.elim, fun _ _ h => h.elim⟩
+
+mutual
+  theorem refsIn_eraseN (F : Nat → Prop) : ∀ n, RefsIn F (eraseN n) ↔ RefsIn F n
+    | .obj r subs frags => by
+      simp only [eraseN, RefsIn, refsInL_eraseL F subs, refsInF_eraseF F frags]
+    | .ref id => by simp only [eraseN]
+  theorem refsInL_eraseL (F : Nat → Prop) : ∀ ns, RefsInL F (eraseL ns) ↔ RefsInL F ns
+    | [] => by simp only [eraseL]
+    | n :: ns => by simp only [eraseL, RefsInL, refsIn_eraseN F n, refsInL_eraseL F ns]
+  theorem refsInF_eraseF (F : Nat → Prop) : ∀ fs, RefsInF F (eraseF fs) ↔ RefsInF F fs
+    | [] => by simp only [eraseF]
+    | .mk ty ns :: fs => by simp only [eraseF, RefsInF, refsInL_eraseL F ns, refsInF_eraseF F fs]
+end
+
+theorem refsIn_of_erase {F : Nat → Prop} {n m : Node} (h : eraseN n = eraseN m) (hr : RefsIn F n) : RefsIn F m := by
+  rw [← refsIn_eraseN, ← h, refsIn_eraseN]; exact hr
+
+theorem refsInL_of_erase {F : Nat → Prop} {n m : List Node} (h : eraseL n = eraseL m) (hr : RefsInL F n) : RefsInL F m := by
+  rw [← refsInL_eraseL, ← h, refsInL_eraseL]; exact hr
+
+theorem refsInF_of_erase {F : Nat → Prop} {n m : List Frag} (h : eraseF n = eraseF m) (hr : RefsInF F n) : RefsInF F m := by
+  rw [← refsInF_eraseF, ← h, refsInF_eraseF]; exact hr
+
+mutual
+  theorem refsIn_true : ∀ n, RefsIn (fun _ => True) n
+    | .obj r subs frags => by simp only [RefsIn]; exact ⟨refsInL_true subs, refsInF_true frags⟩
+    | .ref id => by simp only [RefsIn]
+  theorem refsInL_true : ∀ ns, RefsInL (fun _ => True) ns
+    | [] => by simp only [RefsInL]
+    | n :: ns => by simp only [RefsInL]; exact ⟨refsIn_true n, refsInL_true ns⟩
+  theorem refsInF_true : ∀ fs, RefsInF (fun _ => True) fs
+    | [] => by simp only [RefsInF]
+    | .mk ty ns :: fs => by simp only [RefsInF]; exact ⟨refsInL_true ns, refsInF_true fs⟩
+end
+
+/-- FRAME: the two stores agree up to `formatted` on the set `F` of object ids, and `F` is closed under the
+    references found in its objects (outside `F` the stores may differ arbitrarily: nothing that starts inside `F`
+    ever looks there) -/
+structure EraseAgree (F : Nat → Prop) (st1 st2 : Store) : Prop where
+  len : st1.length = st2.length
+  look : ∀ id, F id → (st1[id]?).map eraseN = (st2[id]?).map eraseN
+  closed : ∀ id m, F id → st1[id]? = some m → RefsIn F m
+
+theorem eraseAgree_of_eq {st1 st2 : Store} (h : eraseL st1 = eraseL st2) : EraseAgree (fun _ => True) st1 st2 :=
+  ⟨erase_length h, fun id _ => erase_lookup h id, fun _ m _ _ => refsIn_true m⟩
+
+/-- both runs changed nothing but `formatted`: the frame is still there -/
+theorem EraseAgree.step {F : Nat → Prop} {st1 st2 t1 t2 : Store} (h : EraseAgree F st1 st2)
+    (h1 : eraseL t1 = eraseL st1) (h2 : eraseL t2 = eraseL st2) : EraseAgree F t1 t2 := by
+  refine ⟨?_, ?_, ?_⟩
+  · rw [erase_length h1, erase_length h2]; exact h.len
+  · intro id hid
+    rw [erase_lookup h1 id, erase_lookup h2 id]
+    exact h.look id hid
+  · intro id m hid hm
+    have hl := erase_lookup h1 id
+    rw [hm] at hl
+    cases hm0 : st1[id]? with
+    | none => rw [hm0] at hl; simp at hl
+    | some m0 =>
+      rw [hm0] at hl
+      simp at hl
+      exact refsIn_of_erase hl.symm (h.closed id m0 hid hm0)
+
+/-- outcome of the same visit in two runs: the same exception, or the same selection / rendered node / used
+    names, and stores that are identical on a closed set (grown from `A`) containing everything the rendered node
+    refers to -/
+def Sim {σ ν : Type} (P : (Nat → Prop) → ν → Prop) (A : Nat → Prop)
+    (r1 r2 : Except Err (σ × ν × Store × List String)) : Prop :=
+  (∃ e, r1 = .error e ∧ r2 = .error e) ∨
+  (∃ s n t1 t2 u, ∃ A' : Nat → Prop, r1 = .ok (s, n, t1, u) ∧ r2 = .ok (s, n, t2, u) ∧
+      (∀ i, A i → A' i) ∧ Good A' t1 t2 ∧ P A' n)
+
+theorem Sim.error {σ ν : Type} {P : (Nat → Prop) → ν → Prop} {A : Nat → Prop} {e : Err} :
+    Sim (σ := σ) P A (.error e) (.error e) := Or.inl ⟨e, rfl, rfl⟩
+
+theorem Sim.ok {σ ν : Type} {P : (Nat → Prop) → ν → Prop} {A A' : Nat → Prop} {s : σ} {n : ν} {t1 t2 : Store}
+    {u : List String} (hA : ∀ i, A i → A' i) (hg : Good A' t1 t2) (hp : P A' n) :
+    Sim P A (.ok (s, n, t1, u)) (.ok (s, n, t2, u)) := Or.inr ⟨s, n, t1, t2, u, A', rfl, rfl, hA, hg, hp⟩
+
+def VisitSim (f : Visit) : Prop :=
+  ∀ (F A : Nat → Prop) (st1 st2 : Store) (used : List String) (n1 n2 : Node),
+    EraseAgree F st1 st2 → eraseN n1 = eraseN n2 → RefsIn F n1 → Good A st1 st2 →
+    Sim RefsIn A (f st1 used n1) (f st2 used n2)
+
+theorem mapAcc_sim {f : Visit} (he : VisitErase f) (hf : VisitSim f) :
+    ∀ (ns1 ns2 : List Node) (F A : Nat → Prop) (st1 st2 : Store) (used : List String),
+      EraseAgree F st1 st2 → eraseL ns1 = eraseL ns2 → RefsInL F ns1 → Good A st1 st2 →
+      Sim RefsInL A (mapAcc f st1 used ns1) (mapAcc f st2 used ns2) := by
+  intro ns1
+  induction ns1 with
+  | nil =>
+    intro ns2 F A st1 st2 used hs hn hF hg
+    cases ns2 with
+    | nil =>
+      simp only [mapAcc]
+      exact Sim.ok (fun _ h => h) hg trivial
+    | cons y ys => simp [eraseL] at hn
+  | cons n1 ns1 ih =>
+    intro ns2 F A st1 st2 used hs hn hF hg
+    cases ns2 with
+    | nil => simp [eraseL] at hn
+    | cons n2 ns2 =>
+      simp only [eraseL, List.cons.injEq] at hn
+      obtain ⟨hn1, hn2⟩ := hn
+      simp only [RefsInL] at hF
+      simp only [mapAcc]
+      rcases hf F A st1 st2 used n1 n2 hs hn1 hF.1 hg with ⟨e, h1, h2⟩ | ⟨s, m, t1, t2, u, A1, h1, h2, hA1, hg1, hr1⟩
+      · rw [h1, h2]; exact Sim.error
+      · rw [h1, h2]
+        dsimp only
+        have hs1 : EraseAgree F t1 t2 := hs.step (he _ _ _ _ _ _ _ h1).1 (he _ _ _ _ _ _ _ h2).1
+        rcases ih ns2 F A1 t1 t2 u hs1 hn2 hF.2 hg1 with ⟨e, h3, h4⟩ | ⟨ss, ms, t1', t2', u', A2, h3, h4, hA2, hg2, hr2⟩
+        · rw [h3, h4]; exact Sim.error
+        · rw [h3, h4]
+          exact Sim.ok (fun i h => hA2 i (hA1 i h)) hg2 ⟨refsIn_mono hA2 m hr1, hr2⟩
+
+theorem mapFrags_sim {f : Visit} (he : VisitErase f) (hf : VisitSim f) :
+    ∀ (fs1 fs2 : List Frag) (F A : Nat → Prop) (st1 st2 : Store) (used : List String),
+      EraseAgree F st1 st2 → eraseF fs1 = eraseF fs2 → RefsInF F fs1 → Good A st1 st2 →
+      Sim RefsInF A (mapFrags f st1 used fs1) (mapFrags f st2 used fs2) := by
+  intro fs1
+  induction fs1 with
+  | nil =>
+    intro fs2 F A st1 st2 used hs hn hF hg
+    cases fs2 with
+    | nil =>
+      simp only [mapFrags]
+      exact Sim.ok (fun _ h => h) hg trivial
+    | cons y ys => cases y; simp [eraseF] at hn
+  | cons x fs1 ih =>
+    intro fs2 F A st1 st2 used hs hn hF hg
+    cases x with
+    | mk ty1 ns1 =>
+      cases fs2 with
+      | nil => simp [eraseF] at hn
+      | cons y fs2 =>
+        cases y with
+        | mk ty2 ns2 =>
+          simp only [eraseF, List.cons.injEq, Frag.mk.injEq] at hn
+          obtain ⟨⟨rfl, hn1⟩, hn2⟩ := hn
+          simp only [RefsInF] at hF
+          simp only [mapFrags]
+          rcases mapAcc_sim he hf ns1 ns2 F A st1 st2 used hs hn1 hF.1 hg with
+            ⟨e, h1, h2⟩ | ⟨ss, ms, t1, t2, u, A1, h1, h2, hA1, hg1, hr1⟩
+          · rw [h1, h2]; exact Sim.error
+          · rw [h1, h2]
+            dsimp only
+            have hs1 : EraseAgree F t1 t2 :=
+              hs.step (mapAcc_erase he _ _ _ _ _ _ _ h1).1 (mapAcc_erase he _ _ _ _ _ _ _ h2).1
+            rcases ih fs2 F A1 t1 t2 u hs1 hn2 hF.2 hg1 with ⟨e, h3, h4⟩ | ⟨rest, fs', t1', t2', u', A2, h3, h4, hA2, hg2, hr2⟩
+            · rw [h3, h4]; exact Sim.error
+            · rw [h3, h4]
+              exact Sim.ok (fun i h => hA2 i (hA1 i h)) hg2 ⟨refsInL_mono hA2 ms hr1, hr2⟩
+
+/-- `to_ast` never reads `formatted_variables`: from two configurations that agree up to them it raises the
+    same exception or produces the same selection, used names and rendered node, and leaves stores that are
+    identical wherever the rendered node can lead `get_formatted_variables` -/
+theorem toAst_sim (idx : Nat) : ∀ fuel, VisitSim (toAst fuel idx) := by
+  intro fuel
+  induction fuel with
+  | zero =>
+    intro F A st1 st2 used n1 n2 hs hn hF hg
+    simp only [toAst]
+    exact Sim.error
+  | succ f ih =>
+    intro F A st1 st2 used n1 n2 hs hn hF hg
+    cases n1 with
+    | obj r1 s1 f1 =>
+      cases n2 with
+      | ref id => simp [eraseN] at hn
+      | obj r2 s2 f2 =>
+        obtain ⟨hc, hfn, hgn, hv, hal, hsub, hfr⟩ := rec_of_erase hn
+        obtain ⟨c1, fn1, g1, v1, fm1, al1⟩ := r1
+        obtain ⟨c2, fn2, g2, v2, fm2, al2⟩ := r2
+        simp only at hc hfn hgn hv hal
+        subst hc hfn hgn hv hal
+        simp only [RefsIn] at hF
+        simp only [toAst]
+        cases hcv : collectVars idx v1 used with
+        | error e => exact Sim.error
+        | ok x =>
+          obtain ⟨fv, u1⟩ := x
+          dsimp only
+          rcases mapAcc_sim (toAst_erase idx f) ih s1 s2 F A st1 st2 u1 hs hsub hF.1 hg with
+            ⟨e, h1, h2⟩ | ⟨ss, subs', t1, t2, u2, A1, h1, h2, hA1, hg1, hr1⟩
+          · rw [h1, h2]; exact Sim.error
+          · rw [h1, h2]
+            dsimp only
+            have hs1 : EraseAgree F t1 t2 :=
+              hs.step (mapAcc_erase (toAst_erase idx f) _ _ _ _ _ _ _ h1).1
+                (mapAcc_erase (toAst_erase idx f) _ _ _ _ _ _ _ h2).1
+            rcases mapFrags_sim (toAst_erase idx f) ih f1 f2 F A1 t1 t2 u2 hs1 hfr hF.2 hg1 with
+              ⟨e, h3, h4⟩ | ⟨fsel, frags', t1', t2', u3, A2, h3, h4, hA2, hg2, hr2⟩
+            · rw [h3, h4]; exact Sim.error
+            · rw [h3, h4]
+              dsimp only
+              rw [eraseL_isEmpty hsub, eraseF_isEmpty hfr]
+              exact Sim.ok (fun i h => hA2 i (hA1 i h)) hg2 ⟨refsInL_mono hA2 subs' hr1, hr2⟩
+    | ref id =>
+      cases n2 with
+      | obj r2 s2 f2 => simp [eraseN] at hn
+      | ref id2 =>
+        simp only [eraseN, Node.ref.injEq] at hn
+        subst hn
+        simp only [RefsIn] at hF
+        simp only [toAst]
+        have hl := hs.look id hF
+        cases hm1 : st1[id]? with
+        | none =>
+          rw [hm1] at hl
+          cases hm2 : st2[id]? with
+          | none => exact Sim.error
+          | some m2 => rw [hm2] at hl; simp at hl
+        | some m1 =>
+          rw [hm1] at hl
+          cases hm2 : st2[id]? with
+          | none => rw [hm2] at hl; simp at hl
+          | some m2 =>
+            rw [hm2] at hl
+            simp at hl
+            dsimp only
+            rcases ih F A st1 st2 used m1 m2 hs hl (hs.closed id m1 hF hm1) hg with
+              ⟨e, h1, h2⟩ | ⟨s, n', t1, t2, u1, A1, h1, h2, hA1, hg1, hr1⟩
+            · rw [h1, h2]; exact Sim.error
+            · rw [h1, h2]
+              dsimp only
+              have hs1 : EraseAgree F t1 t2 :=
+                hs.step (toAst_erase idx f _ _ _ _ _ _ _ h1).1 (toAst_erase idx f _ _ _ _ _ _ _ h2).1
+              have hlen := hs1.len
+              refine Sim.ok (A' := fun j => j = id ∨ A1 j) (fun i h => Or.inr (hA1 i h)) ?_ (Or.inl rfl)
+              constructor
+              · intro j hj
+                by_cases hji : id = j
+                · subst hji
+                  simp [List.getElem?_set, hlen]
+                · rcases hj with rfl | hj
+                  · exact absurd rfl hji
+                  · rw [List.getElem?_set_ne hji, List.getElem?_set_ne hji]
+                    exact hg1.same j hj
+              · intro j m hj hm
+                by_cases hji : id = j
+                · subst hji
+                  rw [List.getElem?_set] at hm
+                  simp at hm
+                  obtain ⟨-, rfl⟩ := hm
+                  exact refsIn_mono (fun i h => Or.inr h) _ hr1
+                · rcases hj with rfl | hj
+                  · exact absurd rfl hji
+                  · rw [List.getElem?_set_ne hji] at hm
+                    exact refsIn_mono (fun i h => Or.inr h) _ (hg1.closed j m hj hm)
+
+/-! ### `get_formatted_variables` only looks where the stores are identical -/
+
+theorem gfvList_congr {f g : GVisit} {A : Nat → Prop} (h : ∀ n, RefsIn A n → f n = g n) :
+    ∀ (ns : List Node) (d : List FVar), RefsInL A ns → gfvList f d ns = gfvList g d ns
+  | [], d, _ => rfl
+  | n :: ns, d, hr => by
+    simp only [RefsInL] at hr
+    simp only [gfvList]
+    rw [h n hr.1]
+    cases g n with
+    | error e => rfl
+    | ok x => exact gfvList_congr h ns _ hr.2
+
+theorem gfvFrags_congr {f g : GVisit} {A : Nat → Prop} (h : ∀ n, RefsIn A n → f n = g n) :
+    ∀ (fs : List Frag) (d : List FVar), RefsInF A fs → gfvFrags f d fs = gfvFrags g d fs
+  | [], d, _ => rfl
+  | .mk ty ns :: fs, d, hr => by
+    simp only [RefsInF] at hr
+    simp only [gfvFrags]
+    rw [gfvList_congr h ns d hr.1]
+    cases gfvList g d ns with
+    | error e => rfl
+    | ok d1 => exact gfvFrags_congr h fs _ hr.2
+
+theorem getFormatted_agree {A : Nat → Prop} {st1 st2 : Store} (hg : Good A st1 st2) :
+    ∀ (fuel : Nat) (n : Node), RefsIn A n → getFormatted fuel st1 n = getFormatted fuel st2 n := by
+  intro fuel
+  induction fuel with
+  | zero => intro n _; rfl
+  | succ f ih =>
+    intro n hr
+    cases n with
+    | obj r subs frags =>
+      simp only [RefsIn] at hr
+      simp only [getFormatted]
+      rw [gfvList_congr ih subs r.formatted hr.1]
+      cases gfvList (getFormatted f st2) r.formatted subs with
+      | error e => rfl
+      | ok d1 => exact gfvFrags_congr ih frags d1 hr.2
+    | ref id =>
+      simp only [RefsIn] at hr
+      simp only [getFormatted]
+      rw [← hg.same id hr]
+      cases hm : st1[id]? with
+      | none => rfl
+      | some m => exact ih m (hg.closed id m hr hm)
+
+/-! ### one client call -/
+
+theorem buildSelections_sim (fuel : Nat) :
+    ∀ (ns1 ns2 : List Node) (idx : Nat) (F A : Nat → Prop) (st1 st2 : Store),
+      EraseAgree F st1 st2 → eraseL ns1 = eraseL ns2 → RefsInL F ns1 → Good A st1 st2 →
+      (∃ e, buildSelections fuel idx st1 ns1 = .error e ∧ buildSelections fuel idx st2 ns2 = .error e) ∨
+      (∃ sels ns' t1 t2, ∃ A' : Nat → Prop, buildSelections fuel idx st1 ns1 = .ok (sels, ns', t1) ∧
+          buildSelections fuel idx st2 ns2 = .ok (sels, ns', t2) ∧ (∀ i, A i → A' i) ∧ Good A' t1 t2 ∧
+          RefsInL A' ns') := by
+  intro ns1
+  induction ns1 with
+  | nil =>
+    intro ns2 idx F A st1 st2 hs hn hF hg
+    cases ns2 with
+    | nil => exact Or.inr ⟨[], [], st1, st2, A, rfl, rfl, fun _ h => h, hg, trivial⟩
+    | cons y ys => simp [eraseL] at hn
+  | cons n1 ns1 ih =>
+    intro ns2 idx F A st1 st2 hs hn hF hg
+    cases ns2 with
+    | nil => simp [eraseL] at hn
+    | cons n2 ns2 =>
+      simp only [eraseL, List.cons.injEq] at hn
+      obtain ⟨hn1, hn2⟩ := hn
+      simp only [RefsInL] at hF
+      simp only [buildSelections]
+      rcases toAst_sim idx fuel F A st1 st2 [] n1 n2 hs hn1 hF.1 hg with
+        ⟨e, h1, h2⟩ | ⟨s, m, t1, t2, u, A1, h1, h2, hA1, hg1, hr1⟩
+      · rw [h1, h2]; exact Or.inl ⟨e, rfl, rfl⟩
+      · rw [h1, h2]
+        dsimp only
+        have hs1 : EraseAgree F t1 t2 :=
+          hs.step (toAst_erase idx fuel _ _ _ _ _ _ _ h1).1 (toAst_erase idx fuel _ _ _ _ _ _ _ h2).1
+        rcases ih ns2 (idx + 1) F A1 t1 t2 hs1 hn2 hF.2 hg1 with
+          ⟨e, h3, h4⟩ | ⟨sels, ns', t1', t2', A2, h3, h4, hA2, hg2, hr2⟩
+        · rw [h3, h4]; exact Or.inl ⟨e, rfl, rfl⟩
+        · rw [h3, h4]
+          exact Or.inr ⟨s :: sels, m :: ns', t1', t2', A2, rfl, rfl, fun i h => hA2 i (hA1 i h), hg2,
+            refsIn_mono hA2 m hr1, hr2⟩
+
+theorem combine_agree {A : Nat → Prop} {st1 st2 : Store} (hg : Good A st1 st2) (fuel : Nat) (ns : List Node)
+    (hr : RefsInL A ns) : combine fuel st1 ns = combine fuel st2 ns :=
+  gfvList_congr (getFormatted_agree hg fuel) ns [] hr
+
+/-- outcome of one client call in two runs: the same exception, or the same document and processes that
+    agree again up to `formatted` -/
+def ExecAgree (r1 r2 : Except Err (Doc × Store)) : Prop :=
+  (∃ e, r1 = .error e ∧ r2 = .error e) ∨
+  (∃ d t1 t2, r1 = .ok (d, t1) ∧ r2 = .ok (d, t2) ∧ eraseL t1 = eraseL t2)
+
+/-- the document of one client call does not depend on the `formatted_variables` it finds in the objects -/
+theorem execOp_formatted_irrelevant (ty nm : String) {st1 st2 : Store} {ns1 ns2 : List Node}
+    (hs : eraseL st1 = eraseL st2) (hn : eraseL ns1 = eraseL ns2) :
+    ExecAgree (execOp ty nm st1 ns1) (execOp ty nm st2 ns2) := by
+  unfold execOp
+  rw [opFuel_congr hs hn]
+  rcases buildSelections_sim (opFuel st2 ns2) ns1 ns2 0 _ _ st1 st2 (eraseAgree_of_eq hs) hn (refsInL_true ns1)
+      (good_empty st1 st2) with
+    ⟨e, h1, h2⟩ | ⟨sels, ns', t1, t2, A', h1, h2, -, hg, hr⟩
+  · rw [h1, h2]; exact Or.inl ⟨e, rfl, rfl⟩
+  · rw [h1, h2]
+    dsimp only
+    rw [combine_agree hg _ _ hr]
+    cases combine (opFuel st2 ns2) t2 ns' with
+    | error e => exact Or.inl ⟨e, rfl, rfl⟩
+    | ok fv =>
+      refine Or.inr ⟨_, t1, t2, rfl, rfl, ?_⟩
+      rw [(buildSelections_erase _ _ _ _ _ _ _ h1).1, (buildSelections_erase _ _ _ _ _ _ _ h2).1, hs]
+
 end Ariadne.C14
